@@ -76,6 +76,14 @@ pub fn c15_sock_test(w: &mut SockWorker, sc: &SockCut) -> Verdict {
     let want: Vec<u32> = exp.delivered.iter().filter(|i| **i < complete).map(|i| sc.case.conv.reqs[*i].id).collect();
     let heads = |j: usize| exp.msgs.get(j).map(|m| m.head).unwrap_or(false);
     let (obs, _nonce) = w.run(&case, &heads);
+    // the worker's servers live as long as the worker: a refused connection means that a server has
+    // stopped accepting, which is exactly what earlier vanished clients must not bring about
+    if obs.timeout.as_deref().map(|t| t.contains("connect failed") && t.contains("refused")).unwrap_or(false) {
+        std::thread::sleep(Duration::from_millis(60));
+        if w.connect(case.transport).is_err() {
+            return fail("C15/sock/server-stopped-accepting", format!("after clients that vanished (half-close / close / reset at generated points) new connections to the same server are refused: {}", obs.timeout.clone().unwrap_or_default()));
+        }
+    }
     if let Some(v) = engine_trouble(&obs) {
         return v;
     }
@@ -940,4 +948,118 @@ pub fn c02_reset_test(_w: &mut (), c: &ResetBeforeAccept) -> Verdict {
     let any_reset_delivered = delivered.iter().any(|d| d.0.starts_with("/reset/"));
     let all_live = delivered.iter().filter(|d| d.0.starts_with("/live/")).count() >= c.live;
     Verdict::Pass(if all_live { Good::nontrivial() } else { Good::trivial() }.class(format!("resets={}", c.resets)).class_if(any_reset_delivered, "request-of-a-reset-connection-delivered").class_if(!all_live, "live-request-missing"))
+}
+
+// ------------------------------------------------------------------------------------------
+// C13 through the whole server over real sockets: the same pipeline once written in one piece
+// while the application has not started receiving yet, once one request at a time with the
+// application receiving all along.  What the application gets and what the client reads is the same.
+
+#[derive(Clone, Debug, Serialize, Deserialize)]
+pub struct BurstVsPaced {
+    pub tcp: bool,
+    pub requests: usize,
+    /// ms the application waits before its first recv in the burst run
+    pub app_delay_ms: u64,
+}
+
+pub fn c13_burst_strategy() -> BoxedStrategy<BurstVsPaced> {
+    (any::<bool>(), prop_oneof![Just(3usize), Just(9usize), Just(12usize), Just(20usize), Just(40usize)], prop_oneof![Just(0u64), Just(30u64), Just(80u64)]).prop_map(|(tcp, requests, app_delay_ms)| BurstVsPaced { tcp, requests, app_delay_ms }).boxed()
+}
+
+fn c13_burst_run(c: &BurstVsPaced, paced: bool) -> Option<(Vec<String>, Vec<u16>)> {
+    let dir = format!("{}/target/tmp", vcore::report::verif_root());
+    let _ = std::fs::create_dir_all(&dir);
+    let path = format!("{}/c13burst-{}-{:?}.sock", dir, std::process::id(), std::thread::current().id()).replace(['(', ')'], "");
+    let _ = std::fs::remove_file(&path);
+    let server = if c.tcp { tiny_http::Server::http("127.0.0.1:0") } else { tiny_http::Server::http_unix(std::path::Path::new(&path)) }.ok()?;
+    let server = Arc::new(server);
+    let n = c.requests;
+    let delay = if paced { 0 } else { c.app_delay_ms };
+    let app = {
+        let s = server.clone();
+        std::thread::spawn(move || {
+            std::thread::sleep(Duration::from_millis(delay));
+            let mut urls = vec![];
+            let t0 = Instant::now();
+            while urls.len() < n && t0.elapsed() < Duration::from_secs(6) {
+                if let Ok(Some(rq)) = s.recv_timeout(Duration::from_millis(300)) {
+                    urls.push(rq.url().to_string());
+                    let body = format!("answer to {}", rq.url());
+                    let _ = rq.respond(tiny_http::Response::from_string(body));
+                } else if urls.len() + 1 >= n || t0.elapsed() > Duration::from_secs(2) {
+                    // nothing more seems to come
+                    if t0.elapsed() > Duration::from_millis(1500) {
+                        break;
+                    }
+                }
+            }
+            urls
+        })
+    };
+    let mut wire: Vec<Vec<u8>> = vec![];
+    for i in 0..n {
+        let last = i + 1 == n;
+        wire.push(format!("GET /r{} HTTP/1.1\r\nHost: h\r\n{}\r\n", i, if last { "Connection: close\r\n" } else { "" }).into_bytes());
+    }
+    let mut got = vec![];
+    {
+        let mut sock: Box<dyn ReadWriteTimeout> = if c.tcp {
+            let s = std::net::TcpStream::connect(server.server_addr().to_ip()?).ok()?;
+            s.set_read_timeout(Some(Duration::from_secs(8))).ok()?;
+            Box::new(s)
+        } else {
+            let s = std::os::unix::net::UnixStream::connect(&path).ok()?;
+            s.set_read_timeout(Some(Duration::from_secs(8))).ok()?;
+            Box::new(s)
+        };
+        if paced {
+            for w in &wire {
+                sock.write_all(w).ok()?;
+                std::thread::sleep(Duration::from_millis(4));
+            }
+        } else {
+            let all: Vec<u8> = wire.concat();
+            sock.write_all(&all).ok()?;
+        }
+        let mut buf = [0u8; 4096];
+        loop {
+            match sock.read(&mut buf) {
+                Ok(0) | Err(_) => break,
+                Ok(k) => got.extend_from_slice(&buf[..k]),
+            }
+        }
+    }
+    let urls = app.join().ok()?;
+    drop(server);
+    let _ = std::fs::remove_file(&path);
+    // status codes of the responses, in order
+    let mut statuses = vec![];
+    let mut pos = 0;
+    while pos < got.len() {
+        match vcore::respparse::parse_one(&got[pos..], false) {
+            Ok(m) => {
+                pos += m.consumed;
+                statuses.push(m.status);
+            }
+            Err(_) => {
+                statuses.push(0);
+                break;
+            }
+        }
+    }
+    Some((urls, statuses))
+}
+
+pub fn c13_burst_test(_w: &mut (), c: &BurstVsPaced) -> Verdict {
+    let (Some(a), Some(b)) = (c13_burst_run(c, false), c13_burst_run(c, true)) else { return Verdict::Pass(Good::trivial().class("scenario-not-set-up")) };
+    if a != b {
+        // once more, to tell a dependence on the timing from an accident of this run
+        let (Some(a2), Some(b2)) = (c13_burst_run(c, false), c13_burst_run(c, true)) else { return Verdict::Pass(Good::trivial().class("scenario-not-set-up")) };
+        if a2 != b2 {
+            return fail("C13/real/burst-and-paced-sending-differ", format!("twice in a row: {} pipelined requests written in one piece (application receiving {} ms later): delivered {:?}, statuses {:?}; written one at a time: delivered {:?}, statuses {:?}", c.requests, c.app_delay_ms, a2.0, a2.1, b2.0, b2.1));
+        }
+        return Verdict::Pass(Good::trivial().class("differed-once-not-repeated"));
+    }
+    Verdict::Pass(if c.requests >= 9 { Good::nontrivial() } else { Good::trivial() }.class(if c.tcp { "tcp" } else { "unix" }).class(format!("requests={}", c.requests)))
 }
